@@ -481,7 +481,23 @@ class SReal:
             return SReal(r)
         if isinstance(n, numbers.Real) and float(n) == 0.5:
             return self.sqrt()
+        if isinstance(n, numbers.Real) and 0 < float(n) < 1:
+            q = round(1.0 / float(n))
+            if 2 <= q <= 6 and abs(q * float(n) - 1.0) < 1e-12:
+                return self.root(q)
         raise Unsupported('pow %r' % (n,))
+
+    def root(self, q):
+        """principal q-th root of a non-negative real: fresh r >= 0 with r**q == x"""
+        if self < 0:
+            raise ValueError('math domain error')
+        c = Ctx.cur
+        r = c.fresh('root%d' % q, register=False)
+        p = r
+        for _ in range(q - 1):
+            p = p * r
+        c.assume(z3.And(r >= 0, p == self.zreal()))
+        return SReal(r)
 
     def __rpow__(self, b):
         raise Unsupported('symbolic exponent')
@@ -584,6 +600,23 @@ class SReal:
     size = 1
 
     def tolist(self): return self
+
+    def astype(self, t, *a, **k):
+        """numpy scalars answer .astype(); mystic calls it on reduction results (d.max().astype(float))"""
+        try:
+            import numpy as _np
+            kind = _np.dtype(t).kind if not isinstance(t, type) or t in (bool, int, float) else 'f'
+        except TypeError:
+            kind = 'f'
+        if kind == 'b':
+            return self != 0
+        if kind in 'iu':
+            return self.__int__()
+        return self
+
+    def max(self, *a, **k): return self
+    def min(self, *a, **k): return self
+    def sum(self, *a, **k): return self
 
     # numpy asks objects for these in object-dtype loops
     def conjugate(self): return self
